@@ -20,6 +20,7 @@ def handle (line : String) : String :=
         | "pad", [n, e, data, tape] => showRes (rsaPad P Q ⟨beNat n, beNat e⟩ data tape)
         | "unpad", [n, d, c] => showRes (decodeRsaPad P Q ⟨beNat n, beNat d⟩ c)
         | "henc", [n, e, data, tape] => showRes (rsaEncryptHashed P Q ⟨beNat n, beNat e⟩ data tape)
+        | "fp", [n, e] => toString (rsaFingerprint P ⟨beNat n, beNat e⟩)
         | "hdec", [n, d, c] => showRes (rsaDecryptHashed P Q ⟨beNat n, beNat d⟩ c)
         | _, _ => "bad-op"
       | none => "bad-op"
